@@ -12,7 +12,8 @@ Spec == Init /\ [][Next]_<<i, ph>>
 
 RECURSIVE NonEmpty(_)
 NonEmpty(q) == IF q = <<>> THEN <<>> ELSE (IF q[1] = "" THEN <<>> ELSE <<q[1]>>) \o NonEmpty(Tail(q))
-Tokens(line) == SeqToSet(NonEmpty(Split(line, " ")))
+\* (a report line is short; a line of thousands of characters is a run of repeated prompts and is not tokenised)
+Tokens(line) == IF Len(line) > 2000 THEN {} ELSE SeqToSet(NonEmpty(Split(line, " ")))
 \* flags of an argument list (the vector flag counts only with a non-empty value)
 RECURSIVE FlagsOf(_,_)
 FlagsOf(args, k) == IF k > Len(args) THEN {}
@@ -31,8 +32,9 @@ Matches(e, b) ==
       ELSE IF L.cls = "error" THEN (IF (\E k \in 1..n : lines[k] = L.msg) \/ IsSubstring(L.msg \o "{10}", e.stdout_text) THEN "ok" ELSE "error-message-not-printed")
       ELSE LET ns == Len(L.strs)
                slotLine(s, k) == L.strs[s] \in tok[k] /\ (ver = "2" \/ ("(" \o L.sev[s] \o ")") \in tok[k])
-               inj == IF ns = 1 THEN \E a \in 1..n : slotLine(1, a)
-                      ELSE \E a, bb, cc \in 1..n : a # bb /\ a # cc /\ bb # cc /\ slotLine(1, a) /\ slotLine(2, bb) /\ slotLine(3, cc)
+               LinesOf(s) == {k \in 1..n : slotLine(s, k)}
+               inj == IF ns = 1 THEN LinesOf(1) # {}
+                      ELSE \E a \in LinesOf(1) : \E bb \in LinesOf(2) \ {a} : \E cc \in LinesOf(3) \ {a, bb} : TRUE
            IN IF ~inj THEN "score-lines"
               ELSE IF ~\E k \in 1..n : L.clean \in tok[k] THEN "cleaned-vector-not-printed"
               ELSE IF ~\E k \in 1..n : L.rh \in tok[k] THEN "rh-vector-not-printed"
